@@ -265,7 +265,11 @@ impl UnionSpec {
 
 pub fn gen_union(rng: &mut Rng, max_hols: usize) -> UnionSpec {
     let w = rng.below(7) as u8;
-    let nm = rng.usize_in(0, 3);
+    let nm = if rng.chance(0.05) {
+        rng.usize_in(4, 12)
+    } else {
+        rng.usize_in(0, 3)
+    };
     let members = (0..nm).map(|_| gen_cal(rng, w, max_hols)).collect();
     let settle = match rng.below(3) {
         0 => None,
@@ -373,7 +377,11 @@ pub fn gen_spline(rng: &mut Rng) -> SplineSpec {
         };
     }
     let k = rng.usize_in(2, 5);
-    let interior = rng.usize_in(0, 4);
+    let interior = if rng.chance(0.05) {
+        rng.usize_in(5, 40)
+    } else {
+        rng.usize_in(0, 4)
+    };
     let a = awkward(rng, 0.1, 50.0, true);
     let mut t = vec![a; k];
     let mut x = a;
